@@ -65,8 +65,9 @@ def is_empty(T, d):
 
 
 class Ref:
-    def __init__(self, mods_, W, R, decide, trust_forced=True):
+    def __init__(self, mods_, W, R, decide, trust_forced=True, normalize_ctx=False):
         self.D, self.T, self.L, self.Rm, self.S = mods_
+        self.normalize_ctx = normalize_ctx      # classification aid only: evaluate contextual documents the way the engine does
         self.W, self.R = W, R
         self.decide = decide            # callable(kind, doc) -> bool
         self.out = []                   # ('t', str) | ('l', indent) | ('push', ann) | ('pop', ann)
@@ -125,7 +126,10 @@ class Ref:
                     continue
                 self.run(i, bool(self.decide('fill', x)), x)
         elif isinstance(d, T.Contextual):
-            self.run(i, flat, d.fn(indent=i, column=self.col, page_width=self.W, ribbon_width=self.R))
+            sub = d.fn(indent=i, column=self.col, page_width=self.W, ribbon_width=self.R)
+            if self.normalize_ctx:
+                sub = T.normalize_doc(sub)
+            self.run(i, flat, sub)
         else:
             raise ValueError(d)
 
@@ -161,7 +165,7 @@ def norm_out(out):
     return res
 
 
-def match(mods_, doc, W, R, target, max_nodes=20000, trust_forced=True):
+def match(mods_, doc, W, R, target, max_nodes=20000, trust_forced=True, normalize_ctx=False):
     """Search an assignment under which the reference rendering equals `target` (engine output, normalised).
     DFS over decision prefixes; a prefix is abandoned as soon as the text rendered so far contradicts target.
     Returns (Ref of the match | None, number of assignments tried)."""
@@ -182,7 +186,7 @@ def match(mods_, doc, W, R, target, max_nodes=20000, trust_forced=True):
                 pos[0] += 1
                 return v
             raise NeedDecision()
-        r = Ref(mods_, W, R, decide, trust_forced=trust_forced)
+        r = Ref(mods_, W, R, decide, trust_forced=trust_forced, normalize_ctx=normalize_ctx)
         try:
             r.run(0, False, doc)
         except NeedDecision:
@@ -194,6 +198,41 @@ def match(mods_, doc, W, R, target, max_nodes=20000, trust_forced=True):
             r.decisions = prefix
             return r, tried
     return None, tried
+
+
+def match_all(mods_, doc, W, R, target, max_nodes=20000, trust_forced=True):
+    """Generator over EVERY assignment under which the reference rendering equals `target` (same search as match).
+    After exhaustion `match_all.complete` semantics: the generator's return value (StopIteration.value) is True when the
+    whole space was explored within max_nodes."""
+    target = norm_out(target)
+    ttext = flat_chars(target)
+    tried = 0
+    stack = [[]]
+    while stack:
+        prefix = stack.pop()
+        tried += 1
+        if tried > max_nodes:
+            return False
+        pos = [0]
+
+        def decide(kind, d, prefix=prefix, pos=pos):
+            if pos[0] < len(prefix):
+                v = prefix[pos[0]]
+                pos[0] += 1
+                return v
+            raise NeedDecision()
+        r = Ref(mods_, W, R, decide, trust_forced=trust_forced)
+        try:
+            r.run(0, False, doc)
+        except NeedDecision:
+            if flat_chars(norm_out(r.out)) == ttext[:len(flat_chars(norm_out(r.out)))]:
+                stack.append(prefix + [True])
+                stack.append(prefix + [False])
+            continue
+        if norm_out(r.out) == target:
+            r.decisions = prefix
+            yield r
+    return True
 
 
 def flat_chars(out):
